@@ -134,6 +134,17 @@ def forRange {α : Type} (n : Int) (f : Int → Except PyExc (Option α)) : Exce
 /-- `str.isnumeric()` for one character, restricted to ASCII digits (the only numeric characters of the documents in scope) -/
 def isNumeric (c : Char) : Bool := c.isDigit
 
+/-- `re.compile("[cls]").sub(rep, l)`: every character of the class becomes `rep` -/
+def subClass (cls rep l : List Char) : List Char := l.flatMap fun c => if cls.contains c then rep else [c]
+
+/-- `re.compile("  +").sub(" ", l)`: every run of two or more spaces becomes one space -/
+def squeezeGo : Bool → List Char → List Char
+  | _, [] => []
+  | prevSpace, c :: t => if c = ' ' then (if prevSpace then squeezeGo true t else c :: squeezeGo true t) else c :: squeezeGo false t
+def squeezeBlanks (l : List Char) : List Char := squeezeGo false l
+
+#guard subClass "\r\n\t".toList " ".toList "a\tb\r\nc".toList == "a b  c".toList && squeezeBlanks "a  b   c d ".toList == "a b c d ".toList && squeezeBlanks "   ".toList == " ".toList
+
 /-- `l.split(c)` for a one-character separator: the pieces between the separators, empty pieces included (`"".split(c) == [""]`) -/
 def splitChar (l : List Char) (c : Char) : List (List Char) :=
   l.foldr (fun x acc => if x = c then [] :: acc else match acc with | [] => [[x]] | h :: t => (x :: h) :: t) [[]]
